@@ -257,6 +257,17 @@ def task_isolation(P, R):
                 if b is not None and b not in local:
                     bad = True
                     R.bad('C18.c', f, n, f'task function ({how}) mutates captured/global object `{b}` in place')
+        # a task must not modify the partition / objects it is handed either (they are shared by every graph built on the same collection)
+        E = effects(P)
+        for p_ in sorted(E.mutated_params(f)):
+            if (f.qualname, p_) in common.ALLOWED_DEEP:
+                continue
+            if f.parent is not None and getattr(f.parent, 'qualname', '').endswith('pack_partitions_to_parquet'):
+                continue        # packing tasks own their arguments (paths, sub-frames)
+            probs = E.direct.get(f.key, {}).get(p_, []) + [(c_, 'via') for c_, g_, gp_ in E.via.get(f.key, {}).get(p_, [])]
+            for node_, kind_ in probs[:2]:
+                bad = True
+                R.bad('C18.c', f, node_, f'task function ({how}) modifies its argument `{p_}` in place: the partition object is shared with the frame it was derived from')
         if not bad:
             R.ok('C18.c', f, None, f'task function ({how}) writes only its own locals and arguments', construct=f'task {f.qualname}')
 
